@@ -351,6 +351,10 @@ def cases(draw):
             spec["sessions"] = spec["sessions"] + extra
             n = len(spec["sessions"]) + len(spec["recomputes"]) + len(early)
             spec["event_order"] = list(draw(st.permutations(range(n))))
+    # an experiment loop that builds its algorithm once: the scheduler object has served a complete
+    # earlier run and is attached to this simulator with update_scheduler()
+    if not spec["scheduler"].get("estimator") and draw(st.integers(0, 3)) == 0:
+        spec["handed_down"] = True
     return spec
 
 
